@@ -406,7 +406,11 @@ def run(ctx) -> None:
                  "12 tetrahedra: each of the 6 faces split into the two triangles sharing its (00)-(11) diagonal", tp, pcs[0] if pcs else tp.node,
                  f"the {len(got)} tetrahedra {sorted(map(lambda t_: sorted(t_) if t_ else None, got), key=str)[:3]}… do not tile the parallelepiped (6 faces × 2 triangles sharing the "
                  f"diagonal): overlap or gap")
-    ret = [s for s in stmts(tp.node) if isinstance(s, ast.Return)]
+    from ..sem import return_cases as _rc7
+    TPS = Sem(idx, tp)
+    derp7 = tp.params[4] if len(tp.params) > 4 else "der"
+    ret = [st_ for v_, cs_, st_ in _rc7(TPS, resolve=False)
+           if not any(t_.replace(" ", "") in (f"{derp7}==-1", f"-1=={derp7}") and p_ for t_, p_ in cs_)]
     r7.check(len(ret) == 1 and norm(ret[0].value).replace(" ", "") in ("occ/12.0", "occ/12"), "sum of 12 tetrahedra divided by 12", tp,
              ret[0] if ret else tp.node, f"the 12 tetrahedra are normalised by `{norm1(ret[0].value) if ret else '?'}` instead of 12")
 
@@ -429,7 +433,8 @@ def run(ctx) -> None:
     for key_, val_, tgt_, it_, at_, node_ in cands:
         if at_ is None:
             continue
-        vres = AS.resolve(val_, at_) if not isinstance(node_, ast.DictComp) else val_
+        bound_ = {n_.id for n_ in ast.walk(tgt_) if isinstance(n_, ast.Name)}
+        vres = AS.resolve(val_, at_) if not isinstance(node_, ast.DictComp) else AS._res_comp(val_, at_, 8, set(), True, bound_)
         m_ = pmatch(vres, PAT, METAS)
         if m_ and m_[0][0] is vres:
             bb = m_[0][1]
@@ -438,29 +443,81 @@ def run(ctx) -> None:
     r8.check(okmean,
              "group weight = mean of the member bands' weights × band-selection weight", wa, wa.node,
              "the weight of a degenerate group is not the mean over exactly its bands [ib1, ib2)", stmt="group mean")
-    from .groups import check_completion_blocks
+    from .groups import check_completion_blocks, check_range_partition
+    r8.instance("get_bands_in_range / below / above: partition at the window edges")
+    check_range_partition(r8, idx)
     r8.instance(f"{wa.short}: sea / anti-sea completion")
     check_completion_blocks(r8, idx, wa, want=("sea", "anti"))
     gk_ = idx.function(DK, "Data_K.get_bands_in_range_groups_ik")
     r8.instance(f"{gk_.short}: sea-grid completion")
     check_completion_blocks(r8, idx, gk_, want=("sea",))
-    w1 = idx.function(TET, "TetraWeights.weight_1k1b")
+    # anti-sea (der = −1): for every weight class, on every call path from the per-band weight cache down to weights_tetra(...) some method
+    # turns der = −1 into 1 − (der = 0) before `der` reaches weights_tetra (which knows der ≥ 0 only and returns zeros otherwise)
     from ..sem import return_cases as _rc
-    W1S = Sem(idx, w1)
-    W1S.inline_helpers = False
-    derp = next((p_ for p_ in w1.params if p_ == "der"), None)
-    okanti = False
-    for v_, cs_, st_ in _rc(W1S, resolve=False):
-        if not any(t_.replace(" ", "") in (f"{derp}==-1", f"-1=={derp}") and p_ for t_, p_ in cs_):
+    tw_classes = [c_ for c_ in idx.module(TET).classes.values() if c_.name == "TetraWeights" or any(b_.name == "TetraWeights" for b_ in idx.mro(c_))]
+
+    def handles_anti(m_) -> bool:
+        MS_ = Sem(idx, m_)
+        MS_.inline_helpers = False
+        dp_ = next((p_ for p_ in m_.params if p_ == "der"), None)
+        if dp_ is None:
+            return False
+        for v_, cs_, st_ in _rc(MS_, resolve=False):
+            if not any(t_.replace(" ", "") in (f"{dp_}==-1", f"-1=={dp_}") and p_ for t_, p_ in cs_):
+                continue
+            v2 = MS_.resolve(v_, MS_.cfg.node(st_))
+            if isinstance(v2, ast.BinOp) and isinstance(v2.op, ast.Sub) and const_of(v2.left) in (1, 1.0) and isinstance(v2.right, ast.Call) \
+                    and isinstance(v2.right.func, ast.Attribute) and norm(v2.right.func.value) == "self":
+                c_ = v2.right
+                callee = idx.find_method(m_.cls, c_.func.attr.replace(f"_{m_.cls.name}__", "__")) if m_.cls is not None else None
+                if callee is None:
+                    continue
+                cps = [p_ for p_ in callee.params if p_ != "self"]
+                dk = kwarg(c_, "der", cps.index("der")) if "der" in cps else None
+                others_same = all(norm(a_) in m_.params for a_ in c_.args) and all(norm(k_.value) in m_.params or k_.arg == "der" for k_ in c_.keywords)
+                if dk is not None and const_of(dk) == 0 and others_same:
+                    return True
+        return False
+
+    for c_ in tw_classes:
+        entry = idx.find_method(c_, "__weight_1b") or idx.find_method(c_, "_TetraWeights__weight_1b")
+        r8.instance(f"{c_.name}: anti-sea weight path")
+        if entry is None:
+            r8.expect(False, "", f"{TET}:{c_.name}", c_.node, f"{c_.name}: per-band weight cache method `__weight_1b` not found")
             continue
-        v2 = W1S.resolve(v_, W1S.cfg.node(st_))
-        if isinstance(v2, ast.BinOp) and isinstance(v2.op, ast.Sub) and const_of(v2.left) in (1, 1.0) and isinstance(v2.right, ast.Call) \
-                and norm(v2.right.func) == "self.weight_1k1b":
-            c_ = v2.right
-            dk = kwarg(c_, derp, w1.params.index(derp) - 1)
-            same = [norm(a_) for a_ in c_.args[:3]] == [p_ for p_ in w1.params[1:4]][:len(c_.args[:3])]
-            okanti = dk is not None and const_of(dk) == 0 and same
-    r8.check(okanti, "anti-sea weight = 1 − sea weight", w1, w1.node, "der=-1 weight is not 1 − (der=0 weight)", stmt="der -1")
+        bad_path = None
+        seen_m = set()
+
+        def walk(m_, handled: bool, path):
+            nonlocal bad_path
+            if bad_path is not None or (m_.qualname, handled) in seen_m:
+                return
+            seen_m.add((m_.qualname, handled))
+            h_ = handled or handles_anti(m_)
+            dp_ = "der" if "der" in m_.params else None
+            for x in ast.walk(m_.node):
+                if not isinstance(x, ast.Call):
+                    continue
+                if call_name(x).split(".")[-1] == "weights_tetra":
+                    dv = kwarg(x, "der", 5)
+                    if dv is not None and isinstance(dv, ast.Name) and dv.id == dp_ and not h_:
+                        bad_path = (path + [m_.qualname], x, m_)
+                        return
+                elif isinstance(x.func, ast.Attribute) and isinstance(x.func.value, ast.Name) and x.func.value.id == "self":
+                    nm = x.func.attr
+                    callee = idx.find_method(c_, nm)
+                    if callee is None or "der" not in callee.params:
+                        continue
+                    cps = [p_ for p_ in callee.params if p_ != "self"]
+                    dv = kwarg(x, "der", cps.index("der"))
+                    if dv is not None and isinstance(dv, ast.Name) and dv.id == dp_:
+                        walk(callee, h_, path + [m_.qualname])
+        walk(entry, False, [])
+        r8.check(bad_path is None, f"{c_.name}: der = −1 is turned into 1 − (der = 0) before it reaches weights_tetra", bad_path[2] if bad_path else entry,
+                 bad_path[1] if bad_path else entry.node,
+                 f"{c_.name}: on the call path {' → '.join(bad_path[0]) if bad_path else ''} `der` reaches weights_tetra(…) without the rule "
+                 f"der = −1 ↦ 1 − weight(der = 0): weights_tetra returns zeros for der = −1, so hole-like (anti-sea) weights of every in-window band "
+                 f"are 0 instead of 1 − occupied fraction", stmt="der -1")
     ie = idx.function(TET, "TetraWeights.index_eFermi")
     r8.instance(f"{ie.short}: cache key")
     conds = [s.test for s in ast.walk(ie.node) if isinstance(s, ast.If)]
@@ -490,6 +547,10 @@ def proof_info(ctx):
 from ..selftest import V  # noqa: E402
 
 SELFTEST = [
+    V("in-range test strict at the lower edge (seeded C14-m4)", TET, "Ebandmax[ib1:ib2].max() >= emin", "Ebandmax[ib1:ib2].max() > emin", "fire", "R14.8"),
+    V("below-range test made inclusive while the in-range test stays inclusive", TET, "    add = np.where((Ebandmax < emin))[0]\n", "    add = np.where((Ebandmax <= emin))[0]\n", "fire", "R14.8"),
+    V("anti-sea rule bypassed for the parallelepiped class (seeded C14-m3)", TET, "            self.weights[ief][der][ik][ib] = self.weight_1k1b(ief, ik, ib, der)\n",
+      "            self.weights[ief][der][ik][ib] = self.weight_1k1b_priv(self.eFermis[ief], ik, ib, der=der)\n", "fire", "R14.8"),
     V("anti-sea weight returned as the sea weight", TET, "return 1 - self.weight_1k1b(ief, ik, ib, der=0)", "return self.weight_1k1b(ief, ik, ib, der=0)", "fire", "R14.8"),
     V("c22 coefficient: sign slip", TET, "c22 = (((e3 - e2) * (e4 - e2)) - (e1 - e3) * (2 * e2 + e4) - (e3 + e1 + e2) * (e2 - e4)) * denom2",
       "c22 = (((e3 - e2) * (e4 - e2)) + (e1 - e3) * (2 * e2 + e4) - (e3 + e1 + e2) * (e2 - e4)) * denom2", "fire", "R14.3"),
